@@ -122,6 +122,11 @@ type History struct {
 	// pcache's own HTTP source (pcache.NewHTTPSource): JSON listing at /providers, one
 	// record at /providers/<id>
 	HTTP bool `json:"http,omitempty"`
+	// Opts: how the cache is configured besides WithTTL(ttl).  0: WithRefreshInterval(0)
+	// (automatic refresh off); 1 / 2: the default interval (2 minutes), WithTTL given first /
+	// last; 3 / 4: WithRefreshInterval(1h) given before / after WithTTL.  The configured
+	// time-to-live is the one that counts in every case; refreshes are requested explicitly.
+	Opts int `json:"opts,omitempty"`
 }
 
 // ---------------------------------------------------------------------------
@@ -441,7 +446,20 @@ func Run(h History, ttl time.Duration, settle time.Duration) (res RunResult) {
 			psrcs[i] = hs
 		}
 	}
-	pc, err := pcache.New(pcache.WithSource(psrcs...), pcache.WithPreload(false), pcache.WithRefreshInterval(0), pcache.WithTTL(ttl))
+	opts := []pcache.Option{pcache.WithSource(psrcs...), pcache.WithPreload(false)}
+	switch h.Opts {
+	case 0:
+		opts = append(opts, pcache.WithRefreshInterval(0), pcache.WithTTL(ttl))
+	case 1:
+		opts = append([]pcache.Option{pcache.WithTTL(ttl)}, opts...)
+	case 2:
+		opts = append(opts, pcache.WithTTL(ttl))
+	case 3:
+		opts = append(opts, pcache.WithRefreshInterval(time.Hour), pcache.WithTTL(ttl))
+	case 4:
+		opts = append(opts, pcache.WithTTL(ttl), pcache.WithRefreshInterval(time.Hour))
+	}
+	pc, err := pcache.New(opts...)
 	if err != nil {
 		panic(err)
 	}
